@@ -19,6 +19,10 @@ func ValidateDeploymentGroups(gspecs []GroupSpec) error {
 		return ErrInvalidGroups
 	}
 
+	if len(gspecs) > validationConfig.MaxGroupCount {
+		return errors.Errorf("too many groups (%v > %v)", len(gspecs), validationConfig.MaxGroupCount)
+	}
+
 	names := make(map[string]int, len(gspecs)) // Used as set
 	for _, group := range gspecs {
 		if err := group.ValidateBasic(); err != nil {
